@@ -2,20 +2,27 @@
 active in a `./check C14` run).  Everything here is a *sound refinement* of the generic models: a value is
 only ever replaced by another term that is provably equal to it.
 
-1. byte XOR is kept in an associative-commutative normal form: the XOR of two known bytes is a named
-   constant `c == bv2int(int2bv(a) ^ int2bv(b))` (as in models.bv_op); here a side table remembers for
-   every such constant the set of atoms it is the XOR of, and an XOR whose atom set (symmetric difference)
-   has been built before returns the *same* constant (x^x cancels, the empty set is 0).  So
-   `(x ^ m) ^ k` and `(m ^ k) ^ x` are one term and no bit-vector reasoning is left to the solver.
+1. byte XOR is kept in an associative-commutative normal form: a side table remembers for every XOR
+   result the set of atoms (and the constant) it is the XOR of, and an XOR whose atom set (symmetric
+   difference; x^x cancels, the empty set is the constant) has been built before returns the *same*
+   term.  So `(x ^ m) ^ k` and `(m ^ k) ^ x` are one term.  The XOR of two symbolic bytes is a named
+   byte `c` with `c == xor8(a, b) == xor8(b, a)` for an uninterpreted `xor8` (instead of the
+   `bv2int(int2bv(a) ^ int2bv(b))` of models.bv_op, which made every later query slow): a sound
+   abstraction (every fact given to the solver is true of XOR), complete enough for equations between
+   XOR expressions of the same atoms; an obligation needing other bit-level facts would be UNDECIDED.
+   XOR with a constant keeps the exact arithmetic encoding of models._int_binop.
 2. `x % c` for a constant c > 0 is replaced by the constant r when the path condition proves x % c == r
    (candidate r from the constant part of the linear term x).
 3. slices `s[lo:lo+n]` of a string of symbolic length whose length n is a constant <= 64 and whose bounds
    the path condition proves to be inside the string are materialised as n named bytes (a string with a
    concrete spine, like BytesN); slices of slices are re-based on the underlying string; the length of an
    in-bounds slice is recorded as a definition (`len(s[lo:lo+ln]) == ln`).
-4. `recursive(fn)`: a recursively defined spec function (bytes-valued, fixed result length) is an
-   uninterpreted function plus, at every application, the instance of its defining equation for those
-   arguments (one unfolding, the inner applications stay folded).  See `Rec`.
+4. `recursive(...)`: a recursively defined spec function (bytes-valued, fixed result length) is an
+   uninterpreted function plus, at every application whose case (base / step) the path condition decides,
+   the instance of its defining equation for those arguments.  See `Rec`.
+5. if-conversion of a pure diamond `if c: x = f(..) else: x = g(..)` (no path fork), see `st_If`.
+Performance only: named results of bytes-valued uninterpreted functions, one big interpreter frame
+(`_in_fat_frame`), clause functions parsed once, trivially true goals settled before the solver pool starts.
 """
 from __future__ import annotations
 
@@ -30,41 +37,6 @@ from .values import BAObj, Ref, Sym
 # ---------------------------------------------------------------------------
 # 1. XOR of bytes in AC normal form
 # ---------------------------------------------------------------------------
-
-_orig_bv_op = M.bv_op
-
-
-def _atoms(ex, v):
-    flat = ex.__dict__.setdefault('xor_flat', {})
-    return flat.get(v.t.get_id(), frozenset([v.t.get_id()]))
-
-
-def bv_op(ex, t, a, b):
-    if t is ast.BitXor and not ex.quant and isinstance(a, Sym) and isinstance(b, Sym) and M.is_known_byte(ex, a) and M.is_known_byte(ex, b):
-        flat = ex.__dict__.setdefault('xor_flat', {})
-        canon = ex.__dict__.setdefault('xor_canon', {})
-        atoms = ex.__dict__.setdefault('xor_atoms', {})
-        for v in (a, b):
-            if v.t.get_id() not in flat:
-                atoms[v.t.get_id()] = v
-        key = _atoms(ex, a) ^ _atoms(ex, b)
-        if not key:
-            return 0
-        if len(key) == 1:
-            return atoms[next(iter(key))]
-        hit = canon.get(key)
-        if hit is not None:
-            return hit
-        r = _orig_bv_op(ex, t, a, b)
-        flat[r.t.get_id()] = key
-        canon[key] = r
-        ex.keep.append(r.t)
-        return r
-    return _orig_bv_op(ex, t, a, b)
-
-
-# (superseded by int_binop below, which also covers constant operands)
-
 
 _orig_int_binop = M.int_binop
 _XOR8 = z3.Function('xor8', z3.IntSort(), z3.IntSort(), z3.IntSort())
